@@ -122,17 +122,21 @@ static void ec_alg_type(EVP_PKEY *pkey, char crv[32], char alg[32])
 
 /* Retrieves and b64url-encodes a single OSSL BIGNUM param and adds it to
  * the JSON object as a string. */
-static void get_one_bn(EVP_PKEY *pkey, const char *ossl_param,
-		       json_t *jwk, const char *name)
+static void get_one_bn_pad(EVP_PKEY *pkey, const char *ossl_param,
+			   json_t *jwk, const char *name, int pad_len)
 {
 	/* Get param */
 	BIGNUM *bn = NULL;
 	EVP_PKEY_get_bn_param(pkey, ossl_param, &bn);
 
-	/* Extract data */
+	/* Extract data. RFC 7518 6.2.1 wants EC coordinates and the private
+	 * value as fixed-width octet strings (pad_len), everything else
+	 * minimal (pad_len 0). */
 	int len = BN_num_bytes(bn);
+	if (len < pad_len)
+		len = pad_len;
 	unsigned char *bin = OPENSSL_malloc(len);
-	BN_bn2bin(bn, bin);
+	BN_bn2binpad(bn, bin, len);
 	BN_free(bn);
 
 	/* Encode */
@@ -141,6 +145,12 @@ static void get_one_bn(EVP_PKEY *pkey, const char *ossl_param,
 	OPENSSL_free(bin);
 	json_object_set_new(jwk, name, json_string(b64));
 	jwt_freemem(b64);
+}
+
+static void get_one_bn(EVP_PKEY *pkey, const char *ossl_param,
+		       json_t *jwk, const char *name)
+{
+	get_one_bn_pad(pkey, ossl_param, jwk, name, 0);
 }
 
 /* Retrieves and b64url-encodes a single OSSL octet param and adds it to
@@ -167,10 +177,16 @@ static void process_ec_key(EVP_PKEY *pkey, int priv, json_t *jwk)
 	json_object_set_new(jwk, "alg", json_string(alg_type));
 	json_object_set_new(jwk, "crv", json_string(crv));
 
-	get_one_bn(pkey, OSSL_PKEY_PARAM_EC_PUB_X, jwk, "x");
-	get_one_bn(pkey, OSSL_PKEY_PARAM_EC_PUB_Y, jwk, "y");
+	size_t bits = 0;
+	int width;
+
+	EVP_PKEY_get_size_t_param(pkey, OSSL_PKEY_PARAM_BITS, &bits);
+	width = (int)((bits + 7) / 8);
+
+	get_one_bn_pad(pkey, OSSL_PKEY_PARAM_EC_PUB_X, jwk, "x", width);
+	get_one_bn_pad(pkey, OSSL_PKEY_PARAM_EC_PUB_Y, jwk, "y", width);
 	if (priv)
-		get_one_bn(pkey, OSSL_PKEY_PARAM_PRIV_KEY, jwk, "d");
+		get_one_bn_pad(pkey, OSSL_PKEY_PARAM_PRIV_KEY, jwk, "d", width);
 }
 
 /* For EdDSA keys */
